@@ -54,6 +54,14 @@ pub struct Sn {}
 #[unit(Sx_Foo_a, "x3")]
 pub struct Sx {}
 
+// without reference unit: two units with the SAME symbol (the macro does not ask for unique symbols),
+// so that the units can only be told apart by the unit itself, never by what it displays
+#[quantity]
+#[unit(Sy_Rankine, "°R")]
+#[unit(Sy_Reaumur, "°R")]
+#[unit(Sy_Kelvin, "K")]
+pub struct Sy {}
+
 // single unit
 #[quantity]
 #[unit(Su_Only, "u1")]
